@@ -36,17 +36,20 @@ theorem heappush_perm (lt : α → α → Bool) (a : Array α) (x : α) :
 theorem heappop_none {lt : α → α → Bool} {a : Array α} : heappop lt a = none ↔ a.size = 0 := by
   unfold heappop
   split
-  · dsimp only; split <;> simp <;> omega
-  · simp; omega
+  · next h =>
+    have : a.size ≠ 0 := by omega
+    dsimp only; split <;> simp [this]
+  · next h =>
+    have : a.size = 0 := by omega
+    simp [this]
 
 /-- the list before a pop: the popped list with the last element appended -/
 theorem toList_pop_back (a : Array α) (h : 0 < a.size) : a.toList = a.pop.toList ++ [a[a.size - 1]] := by
-  have := Array.push_pop_back (xs := a) (by intro h'; simp [h'] at h)
-  rw [← Array.toList_inj] at this
-  simp only [Array.toList_push] at this
-  rw [← this]
-  congr 2
-  simp [Array.back]
+  have hne : a.toList ≠ [] := by
+    intro h'; have := congrArg List.length h'; simp at this; subst this; simp at h
+  have := List.dropLast_concat_getLast hne
+  rw [List.getLast_eq_getElem] at this
+  simpa using this.symm
 
 theorem heappop_perm {lt : α → α → Bool} {a a' : Array α} {r : α} (h : heappop lt a = some (r, a')) :
     a.toList.Perm (r :: a'.toList) := by
@@ -68,7 +71,7 @@ theorem heappop_perm {lt : α → α → Bool} {a a' : Array α} {r : α} (h : h
       | cons y l =>
         simp only [List.getElem_toArray, List.getElem_cons_zero, List.setIfInBounds_toArray,
           List.set_cons_zero, List.cons_append]
-        exact (List.perm_append_singleton last l).cons y |>.trans (List.Perm.swap _ _ _) |>.symm |>.symm
+        exact (List.perm_append_singleton last l).cons y
     · next h1 =>
       simp only [Option.some.injEq, Prod.mk.injEq] at h
       obtain ⟨rfl, rfl⟩ := h
